@@ -198,6 +198,8 @@ def _page_encodings(kind, physical, allow):
         encs = ["PLAIN", "PLAIN"] + (["RLE"] if allow.get("rle_bool", True) else [])
     if physical in ("INT32", "INT64") and allow.get("delta", True):
         encs = encs + ["DELTA_BINARY_PACKED"]
+    if allow.get("dict_only") and physical != "BOOLEAN":
+        encs = ["PLAIN_DICTIONARY", "RLE_DICTIONARY"]
     return encs
 
 
@@ -211,7 +213,7 @@ def chunk_plan(draw, col, rows, allow):
     version = draw(st.sampled_from([1, 1, 2]))
     mixed_versions = draw(st.integers(0, 5)) == 0
     fallback_at = draw(st.integers(1, npages)) if base_enc in ("PLAIN_DICTIONARY", "RLE_DICTIONARY") and npages > 1 \
-        and draw(st.booleans()) else None
+        and draw(st.booleans()) and not allow.get("dict_only") else None
     pages = []
     left = n
     for pi in range(npages):
@@ -271,7 +273,7 @@ def flat_plan(draw, thorough=False, allow=None, type_keys=None, pandas_meta=Fals
         allow.setdefault("big_dict", True)
     type_keys = type_keys or SUPPORTED_KEYS
     ncols = draw(st.integers(1, 4))
-    n_groups = draw(st.sampled_from([1, 1, 2, 3]))
+    n_groups = 1 if allow.get("single_group") else draw(st.sampled_from([1, 1, 2, 3]))
     max_rows = 300 if thorough else 70
     names = ["c%d" % i for i in range(ncols)]
     cols = [draw(column(nm, type_keys, max_rows, n_groups)) for nm in names]
